@@ -1914,7 +1914,9 @@ class PGPKey(Armorable, ParentRef, PGPObject):
             # RFC 4880 says that primary keys *must* be capable of certification
             return {KeyFlags.Certify} | (user.selfsig.key_flags if user.selfsig else set())
 
-        return next(self.self_signatures).key_flags
+        # the most recent binding signature decides (as PGPUID.selfsig does for identities), not the oldest one
+        bindings = list(self.self_signatures)
+        return bindings[-1].key_flags if bindings else set()
 
     def _sign(self, subject, sig, **prefs):
         """
